@@ -2,7 +2,7 @@
    [wire_msg] of Spec/Wire.v (it is functional: the octets determine the tree).
    Proofs: Proofs/DecSound.v, DecComplete.v, DecExtra.v *)
 Require Import DV.Base.Bytes DV.Base.Utf8 DV.Model.Leaf DV.Spec.Wire DV.Model.Avp DV.Model.Message
-  DV.Proofs.AvpFacts DV.Proofs.DecTotal DV.Proofs.DecSound DV.Proofs.DecComplete DV.Proofs.BuildFacts DV.Proofs.DecExtra.
+  DV.Proofs.AvpFacts DV.Proofs.DecTotal DV.Proofs.DecSound DV.Proofs.DecComplete DV.Proofs.BuildFacts DV.Proofs.DecExtra DV.Proofs.ChkFacts.
 Local Open Scope N_scope.
 
 (* [msg_nomm m]: m contains no fixed-size value whose declared length disagrees with its size -
@@ -54,3 +54,12 @@ Theorem C03_known_class_witness :
                 enc_msg m = Ok bs' /\ blen bs' <> blen kf1_frame.
 Proof. exact known_class_witness. Qed.
 Print Assumptions C03_known_class_witness.
+
+(* the executable checker used as test oracle by the correspondence check IS the relation *)
+Theorem C03_oracle_is_the_relation : forall d m bs, chk_msg d m bs = true <-> wire_msg d m bs.
+Proof. exact chk_msg_iff_strong. Qed.
+Print Assumptions C03_oracle_is_the_relation.
+
+Theorem C03_oracle_unique : forall d m1 m2 bs, chk_msg d m1 bs = true -> chk_msg d m2 bs = true -> m1 = m2.
+Proof. exact chk_msg_unique_strong. Qed.
+Print Assumptions C03_oracle_unique.
